@@ -114,6 +114,8 @@ def floors(tier):
         "anchors.core._finalize_expand": 5000, "anchors.parser.magic_fn": 1500,
         "anchors.core.expand_args": 500, "anchors.core._save_value": 5000,
         "counters.parse.kindN": 1500,
+        "counters.strict-content.parse.mode1": 1500, "counters.strict-content.parse.mode2": 1500,
+        "counters.class.strict": 500,
         "nontrivial": 5000,
     }
 
@@ -132,7 +134,15 @@ def gen_content(rng, soup):
     """-> (c, cls) ; cls in plain / placeholder"""
     ph = rng.random() < 0.04
     r = rng.random()
-    if r < 0.08:
+    if r < 0.12:
+        # strict class: map characters and letters/digits only -- nothing the second parse of the
+        # pre_expand / expand_all modes could legitimately re-read; asserted in those modes
+        toks = list(R.MAP) + ["{{", "}}", "[[", "]]", "{{{", "}}}", "||", "''", "'" * 3, "==", "__", "<b>", "{{e|A}}", "[[x]]",
+                              "{{mark}}", "{{{1}}}", "{{tk}}", "<div>", "[x]", "a", "B", "x1", "Zq", "mark", "e", "1"]
+        c = "".join(rng.choice(toks) for _ in range(rng.randint(1, 10)))
+        c = R.CLOSE_RE.sub("", c)
+        return c, "strict"
+    if r < 0.19:
         # separators and line-start markers, densely
         toks = ["|", "||", "}}", "]]", "{{", "[[", "\n*", "\n#", "\n:", "\n;", "\n{|", "\n|-", "\n|}", "\n|", "\n!", "=", "\n==",
                 "{{{1}}}", "{{mark}}", "{{e|x}}", "{{ta|", "<!--", "-->", "<nowiki>", "<nowiki/>", "__NOTOC__", "'''", "''",
@@ -233,6 +243,7 @@ class Monitor:
         self.nbody = 0
         self.calls = []
         self.pbase = {}
+        self.xbase = {}
         self.kindN = 0
         self._orig_magic = None
 
@@ -262,9 +273,10 @@ class Monitor:
     def p(self, text, mode):
         ctx = self.ctx
         ctx.start_page("Pg")
+        self.calls = []
         try:
             with cpu_guard(2 if R.PLACEHOLDER_RE.search(text) else 10):
-                root = ctx.parse(text, **PMODES[mode])
+                root = ctx.parse(text, template_fn=self._rec, **PMODES[mode])
             return "ok", root
         except CpuBudget:
             return "no-return", ""
@@ -324,6 +336,8 @@ class Monitor:
         if st != "ok":
             return (st if st == "no-return" else "raises:" + root), "%s %s on parse(%r, %r)" % (st, root, self.nw(c, oc)[:200], PMODES[mode])
         self.obs.check("nowiki.parse-top")
+        if self.calls:
+            return "expanded-inside", "template_fn saw %r during parse(<nowiki>%r</nowiki>, %r)" % (self.calls[:5], c[:200], PMODES[mode])
         want = [R.Q(c)] if c else []
         if root.children != want:
             return "parse-top-single-text", "parse(<nowiki>%r</nowiki>, %r).children = %r, expected %r" % (
@@ -346,6 +360,9 @@ class Monitor:
             return (st if st == "no-return" else "raises:" + root), "%s %s on parse(%r, %r)" % (
                 st, root, PBYNAME[name].replace("%s", self.nw(c, oc))[:200], PMODES[mode])
         self.obs.check("nowiki.parse-ctx")
+        extra = [n for n in self.calls if n not in ("e", "en")]
+        if extra:
+            return "expanded-inside", "template_fn saw %r during parse in ctx %s mode %r content %r" % (extra[:5], name, PMODES[mode], c[:120])
         got = canon(root)
         want = subst(base, SENT, R.Q(c))
         if got != want:
@@ -361,6 +378,139 @@ class Monitor:
         if k == "parse-top":
             return self.parse_top_case(case["c"], case["mode"], oc)
         return self.parse_ctx_case(case["c"], case["ctx"], case["mode"], oc)
+
+    def fresh_eval(self, case):
+        """The same check on a brand-new context (no history): distinguishes a failure of the case itself from a
+        failure that depends on what the context processed before (stale memo / leaked cookie state)."""
+        from vf.core.wtp import fresh, tmpl
+        lib = dict(self.soup.LIBRARY)
+        lib.update(LIB_EXTRA)
+        saved_ctx, saved_obs = self.ctx, self.obs
+        self.obs = Obs()
+        try:
+            with fresh(lua=False, pages=[tmpl(k, v) for k, v in lib.items()]) as c2:
+                self.ctx = c2
+                return self.nowiki_eval(case)
+        finally:
+            self.ctx, self.obs = saved_ctx, saved_obs
+
+    # ----- the "parse after an expand pass" class, made precise
+    def _pfmt(self, case):
+        return "%s" if case["check"] == "parse-top" else PBYNAME[case["ctx"]]
+
+    def _xbase(self, fmt, mode):
+        """expand() output of the context with the sentinel content (what the inner expand pass of parse() must
+        produce, up to the content), cached."""
+        k = (fmt, mode)
+        if k not in self.xbase:
+            st, out = self.x(fmt.replace("%s", "<nowiki>" + SENT + "</nowiki>"), **({"pre_expand": True} if mode == 1 else {}))
+            self.xbase[k] = out if st == "ok" and SENT in out else None
+        return self.xbase[k]
+
+    def explained_by_reparse(self, case):
+        """Explicit test of the documented mechanism of the known finding: the tree that parse(T, pre_expand /
+        expand_all) returned IS the plain parse of the correct expand output (context with Q(c)): the content was
+        entity-quoted correctly and only the second parse re-read it.  Content lost, cookie characters, foreign
+        nodes, expansion inside the nowiki all fail this test."""
+        c, mode = case["c"], case["mode"]
+        fmt = self._pfmt(case)
+        xb = self._xbase(fmt, mode)
+        if xb is None or c == "":
+            return False
+        oc = tuple(case.get("oc", (0, 0)))
+        a = self.p(fmt.replace("%s", self.nw(c, oc)), mode)
+        if a[0] != "ok" or self.calls and [n for n in self.calls if n not in ("e", "en")]:
+            return False
+        b = self.p(xb.replace(SENT, R.Q(c)), 0)
+        return b[0] == "ok" and canon(a[1]) == canon(b[1])
+
+    @staticmethod
+    def outside(ch):
+        """character outside the 15-character map that is not a letter/digit (';', '-', blank, newline, ...)"""
+        return ch not in R.MAP and not ch.isalnum()
+
+    def restricted(self, c):
+        return "".join(ch for ch in c if not self.outside(ch))
+
+    def known_reparse_class(self, case):
+        """All clauses of the known-finding class (the caller has established: parse check, mode != 0, fails)."""
+        c = case["c"]
+        if not any(self.outside(ch) for ch in c):
+            return False
+        if self.nowiki_eval(dict(case, mode=0)) is not None:
+            return False
+        if not self.explained_by_reparse(case):
+            return False
+        # the same content restricted to map characters + letters satisfies the property in the same mode
+        r = self.restricted(c)
+        return r == "" or self.nowiki_eval(dict(case, c=r)) is None
+
+    def outcome_tags(self, case):
+        """What is wrong with the returned tree (for failures the re-parse mechanism does not explain)."""
+        c, mode = case["c"], case["mode"]
+        fmt = self._pfmt(case)
+        oc = tuple(case.get("oc", (0, 0)))
+        a = self.p(fmt.replace("%s", self.nw(c, oc)), mode)
+        if a[0] != "ok":
+            return [a[0] + (":" + a[1] if a[1] else "")]
+        tags = []
+        if [n for n in self.calls if n not in ("e", "en")]:
+            tags.append("expanded-inside")
+        b = self.p(fmt.replace("%s", "<nowiki>" + SENT + "</nowiki>"), 0)
+        strs, kinds = [], set()
+        walk_canon(canon(a[1]), strs, kinds)
+        bstrs, bkinds = [], set()
+        if b[0] == "ok":
+            walk_canon(canon(b[1]), bstrs, bkinds)
+        joined = "\x00".join(strs)
+        if R.PLACEHOLDER_RE.search(joined):
+            tags.append("cookie-char-in-tree")
+        q = R.Q(c)
+        if q and joined.count(q) < "\x00".join(bstrs).replace(SENT, q).count(q):
+            tags.append("content-lost")
+        foreign = sorted(kinds - bkinds)
+        if foreign:
+            tags.append("foreign-node:" + "+".join(foreign))
+        return tags or ["tree-differs"]
+
+    def _sig_after_expand(self, case, prob):
+        """case: parse check, mode != 0, fails, and passes in mode 0."""
+        KNOWN = "nowiki/parse-after-expand-pass/non-map-characters-reinterpreted"
+        c = case["c"]
+
+        def fails(cc, cs=case):
+            if R.CLOSE_RE.search(cc) or R.ENTITY_RE.search(cc) or cc == "":
+                return False
+            return self.nowiki_eval(dict(cs, c=cc)) is not None and self.nowiki_eval(dict(cs, c=cc, mode=0)) is None
+
+        if self.known_reparse_class(case):
+            mc = "".join(R.ddmin(list(c), lambda ch: fails("".join(ch)) and self.known_reparse_class(dict(case, c="".join(ch))), 250)) \
+                if len(c) > 1 else c
+            return KNOWN, dict(case, c=mc)
+        if self.explained_by_reparse(case):
+            # re-parse explains the tree, but the strict clause fails: content of map characters + letters only
+            r = self.restricted(c) if any(self.outside(ch) for ch in c) else c
+            mc = "".join(R.ddmin(list(r), lambda ch: fails("".join(ch)), 400)) if len(r) > 1 else r
+            return "nowiki/parse-after-expand-pass/map-chars-and-letters-reinterpreted/c=%s" % R.shape(mc), dict(case, c=mc)
+        # not explained by the documented mechanism: own signatures
+        mc = "".join(R.ddmin(list(c), lambda ch: fails("".join(ch)) and not self.explained_by_reparse(dict(case, c="".join(ch))), 400)) \
+            if len(c) > 1 else c
+        mcase = dict(case, c=mc, oc=(0, 0))
+        if not fails(mc, mcase):
+            mcase = dict(case, c=mc)
+        ctxtag = case.get("ctx", "top")
+        if case["check"] == "parse-ctx":
+            top = dict(mcase, check="parse-top")
+            top.pop("ctx", None)
+            if fails(mc, top) and not self.explained_by_reparse(top):
+                ctxtag, mcase = "top", top
+        cshape = R.shape(mc)
+        if len(mc) == 1:
+            probe = dict(mcase, c="x")
+            if fails("x", probe) and not self.explained_by_reparse(probe):
+                cshape, mcase = "any-char", probe
+        tags = self.outcome_tags(mcase)
+        return "nowiki/parse-after-expand-pass/unexplained:%s/ctx=%s/c=%s" % (",".join(tags), ctxtag, cshape), mcase
 
     def nowiki_sig(self, case, prob):
         """Delta-minimise the content under 'the same rule fails', then build the mechanism signature."""
@@ -384,15 +534,9 @@ class Monitor:
             return q is not None and q[0] == rule
 
         try:
-            if case["check"] != "expand" and case["mode"] != 0 and self.nowiki_eval(dict(case, mode=0)) is None:
+            if case["check"] != "expand" and case["mode"] != 0 and c != "" and self.nowiki_eval(dict(case, mode=0)) is None:
                 # fails only when parse() runs an expand pass first (pre_expand / expand_all)
-                c2 = "".join(ch for ch in c if ch not in R.MAP)
-                q = self.nowiki_eval(dict(case, c=c2))
-                if q is not None:
-                    def failing2(chars, cs=case):
-                        return self.nowiki_eval(dict(cs, c="".join(chars))) is not None
-                    mc = "".join(R.ddmin(list(c2), failing2, 300)) if len(c2) > 1 else c2
-                    return "nowiki/parse-after-expand-pass/non-map-characters-reinterpreted", dict(case, c=mc)
+                return self._sig_after_expand(case, prob)
             mc = "".join(R.ddmin(list(c), failing)) if len(c) > 1 else c
             mcase = dict(case, c=mc, oc=(0, 0))
             if not failing(list(mc), mcase):
@@ -414,11 +558,9 @@ class Monitor:
             if case["check"] != "expand":
                 # is the failure specific to a parse mode?
                 q0 = self.nowiki_eval(dict(mcase, mode=0))
-                modetag = "" if q0 is not None else "/mode=" + ("pre_expand" if mcase["mode"] == 1 else "expand_all")
-                if modetag and any(ch not in R.MAP for ch in mc):
-                    # only with an expand pass first, and the 1-minimal content needs a character outside the
-                    # map: the finalised expand() output is parsed again and that character is markup again
-                    return "nowiki/parse-after-expand-pass/non-map-characters-reinterpreted", mcase
+                if q0 is None and mc != "":
+                    # minimisation slipped into the expand-pass-only class
+                    return self._sig_after_expand(mcase, prob)
             cshape = R.shape(mc)
             if len(mc) == 1 and mc in R.MAP:
                 # canonical form: which single map characters fail the same way
@@ -435,17 +577,18 @@ class Monitor:
         return sig, mcase
 
     def cheap_class(self, case, prob):
-        """One-run recognition of the two frequent classes, used only when the minimisation budget is spent;
-        anything not recognised is minimised regardless of the budget (nothing is dropped unclassified)."""
+        """Recognition (a few extra runs, every clause of the class tested explicitly) of the two frequent known
+        classes, used only when the minimisation budget is spent; anything not recognised is minimised regardless
+        of the budget (nothing is dropped unclassified)."""
         c = case["c"]
         if R.PLACEHOLDER_RE.search(c):
             return "placeholder-class"
-        if case["check"] != "expand" and case["mode"] != 0 and prob[0] not in ("no-return",) \
-                and any(ch not in R.MAP for ch in c):
+        if case["check"] != "expand" and case["mode"] != 0 and c != "" and prob[0] != "no-return" \
+                and not prob[0].startswith("raises"):
             saved = self.obs
             self.obs = Obs()
             try:
-                if self.nowiki_eval(dict(case, mode=0)) is None:
+                if self.known_reparse_class(case):
                     return "parse-after-expand-pass"
             finally:
                 self.obs = saved
@@ -502,6 +645,26 @@ class Monitor:
         return "comment-relation%s/min=%s" % (ftag, R.shape(m, 18)), dict(case, text=m, f=f)
 
 
+KIND_NAMES = {"ROOT", "LEVEL1", "LEVEL2", "LEVEL3", "LEVEL4", "LEVEL5", "LEVEL6", "ITALIC", "BOLD", "HLINE", "LIST", "LIST_ITEM",
+              "PREFORMATTED", "PRE", "LINK", "TEMPLATE", "TEMPLATE_ARG", "PARSER_FN", "URL", "TABLE", "TABLE_CAPTION", "TABLE_ROW",
+              "TABLE_HEADER_CELL", "TABLE_CELL", "MAGIC_WORD", "HTML"}
+
+
+def walk_canon(t, strs, kinds):
+    """collect every string and every node kind of a canon() tree"""
+    if isinstance(t, str):
+        strs.append(t)
+    elif isinstance(t, tuple):
+        if len(t) == 6 and isinstance(t[0], str) and t[0] in KIND_NAMES and isinstance(t[3], tuple):
+            kinds.add(t[0])
+            strs.append(t[1])
+            for x in t[2:]:
+                walk_canon(x, strs, kinds)
+        else:
+            for x in t:
+                walk_canon(x, strs, kinds)
+
+
 def subst(t, a, b):
     if isinstance(t, str):
         return t.replace(a, b)
@@ -553,6 +716,12 @@ def run_nowiki(mon, obs, rng, c, cls, budget, exh=None):
     pn = [x[0] for x in PCTX]
     for n in (pn if exh == "single" else rng.sample(pn, 2)):
         plan.append({"check": "parse-ctx", "ctx": n, "mode": rng.randrange(3)})
+    if cls == "strict" or exh:
+        # the strict clause under the modes that run an expand pass first
+        plan.append({"check": "parse-top", "mode": 1})
+        plan.append({"check": "parse-top", "mode": 2})
+        for n in rng.sample(pn, 3):
+            plan.append({"check": "parse-ctx", "ctx": n, "mode": rng.choice((1, 2))})
     if c == "":
         # ASSUMPTIONS[0]: the empty nowiki may legitimately come back as <nowiki/>
         plan = [pl for pl in plan if pl["check"] == "expand"] + [{"check": "parse-top", "mode": 0}]
@@ -578,11 +747,21 @@ def run_nowiki(mon, obs, rng, c, cls, budget, exh=None):
         else:
             obs.count("parse.kindN")
             obs.count("pmode.%d" % pl["mode"])
+        if pl["check"] != "expand" and pl["mode"] != 0 and cc and not any(Monitor.outside(ch) for ch in cc):
+            obs.count("strict-content.parse.mode%d" % pl["mode"])
+            obs.check("nowiki.parse-strict-after-expand-pass")
         obs.case("N|%s|%s|%s|%r" % (pl["check"], pl.get("ctx"), pl.get("mode"), cc), nontrivial=nontriv,
                  sample={"part": "nowiki", "case": {k: (v[:200] if isinstance(v, str) else v) for k, v in case.items()}})
         if prob is None:
             continue
         obs.count("nowiki.failures")
+        if not R.PLACEHOLDER_RE.search(cc) and prob[0] != "no-return" and mon.fresh_eval(case) is None:
+            # passes on a context without history: the mechanism is state carried over from earlier calls;
+            # content minimisation is meaningless (it changes the history), one signature per failed rule
+            obs.count("nowiki.failures.state-dependent")
+            obs.violation("nowiki/state-dependent(passes-on-fresh-context)/" + prob[0].split(":")[0], prob[1],
+                          dict(case, part="nowiki", state_dependent=True))
+            continue
         cheap = None
         if not (budget[0] > 0 or budget[1] % 20 == 0):
             cheap = mon.cheap_class(case, prob)
